@@ -33,6 +33,9 @@ Audit extensions (strata on top of the enumeration above):
     proxy      relay policies that raise, gevent.Timeout, non-dict Mapping / tuple results, every failing subset
     rcpt-2xx   a validator answers RCPT with 251 / 252 / a multi-line 250 / 250 with other text, alone and mixed
                with plain 250: every recipient answered 2xx at RCPT is an accepted recipient
+    near-dup   recipients differing only in the case of the local part / of the domain, exact duplicates (RCPT
+               repeated: the unchanged tree keeps both copies), trailing dot, plus-tag -- custody is owed to
+               every accepted RCPT, as often as it was accepted (multiset comparison); both edges
     wire       the real-socket transports run in the quick tier too; a failure must be answered 4xx/5xx
 """
 import io
@@ -132,7 +135,8 @@ REQUIRED_HITS = ['reply-emission-hook', '2xx-with-full-custody', 'failed-write-r
                  'proxy-non-dict-container-judged', 'proxy-relay-policy-failure-refused',
                  'session-second-message-judged', 'session-second-message-failed-write-refused',
                  'pipelined-eod-reply-judged', 'rejected-rcpt-message-judged',
-                 'http-second-request-judged', 'rcpt-answered-other-2xx-judged']
+                 'http-second-request-judged', 'rcpt-answered-other-2xx-judged',
+                 'near-duplicate-recipients-judged']
 SHARDS = {'quick': 8, 'thorough': 16}
 BUDGET = {'quick': 60, 'thorough': 600}
 EXHAUSTIVE = {'quick': True, 'thorough': True}
@@ -156,6 +160,16 @@ FEEDS = {'smtp-script': ['step', 'pipe-cmds', 'pipe-tail', 'pipe-all'],
          'wsgi-server': ['step', 'pipe-all']}
 SESSION_CHAINS = ['split', 'domsplit+split', 'forward+split']
 SESSION_POOLS = [None, 1]
+NEAR_DUPLICATES = [
+    ('case-local', ['Sales@d0.test', 'sales@d0.test']),
+    ('case-local-3', ['Sales@d0.test', 'other@d1.test', 'sales@d0.test', 'SALES@d0.test']),
+    ('case-domain', ['info@D0.test', 'info@d0.test']),
+    ('case-both', ['Info@D0.Test', 'info@d0.test']),
+    ('duplicate', ['dup@d0.test', 'dup@d0.test']),
+    ('duplicate-3', ['dup@d0.test', 'other@d1.test', 'dup@d0.test', 'dup@d0.test']),
+    ('trailing-dot', ['dot@d0.test', 'dot@d0.test.']),
+    ('plus-tag', ['user@d0.test', 'user+tag@d0.test', 'user+Tag@d0.test']),
+]
 RCPT_KINDS = ['250', '251', '252', '250ml', '250txt']
 
 
@@ -285,6 +299,14 @@ def all_cases(tier, seed):
                         yield {'transport': transport, 'queue': 'queue', 'chain': chain,
                                'layout': list(layout), 'pool': pool, 'faults': {}, 'yields': 0,
                                'boom': boom, 'tag': tag}
+        # --- recipients that a careless normalisation would merge
+        for name, rcpts in NEAR_DUPLICATES:
+            for chain in ('none', 'split', 'domsplit', 'domsplit+split'):
+                for pool in (None, 2):
+                    for faults in ({}, {'1': 'qerr552'}):
+                        yield {'transport': transport, 'queue': 'queue', 'chain': chain, 'layout': [0] * len(rcpts),
+                               'rcpts': list(rcpts), 'neardup': name, 'pool': pool, 'faults': faults,
+                               'yields': 0, 'tag': tag}
         # --- ProxyQueue
         for n in range(1, nmax + 1):
             for res in relay_results(n):
@@ -624,6 +646,9 @@ class Msg(object):
         else:
             self.rcpts = ['%sp%d@x%d.test' % (pre, i, i) for i in range(spec['n'])]
             self.plan = Plan(spec=spec['relay'], park=spec['parked'])
+        if spec.get('rcpts'):
+            self.rcpts = list(spec['rcpts'])
+        self.neardup = spec.get('neardup')
         self.offered = list(self.rcpts)
         self.rcpt_kinds = spec.get('rcpt_kinds')
         self.rcpt_codes = {}                   # address -> code of its RCPT reply (session transports)
@@ -814,6 +839,8 @@ def _judge(lab, snap, edgekind, out, code, ok2, msg, second, hits):
         hits.append('rejected-rcpt-message-judged')
     if msg.rcpt_kinds:
         hits.append('rcpt-answered-other-2xx-judged')
+    if msg.neardup:
+        hits.append('near-duplicate-recipients-judged')
     if code is not None and code[:1] not in '245':
         out['viol'].append(('unclassified/%s/final-answer-neither-2xx-nor-4xx-5xx' % edgekind,
                             'the final answer to the message was %r' % code))
@@ -853,7 +880,9 @@ def _judge(lab, snap, edgekind, out, code, ok2, msg, second, hits):
                                        missing)))
             elif missing:
                 other2xx = [r for r in missing if msg.rcpt_codes.get(r, '250') != '250']
-                if other2xx and len(other2xx) == len(missing):
+                if msg.neardup:
+                    mech = '%s/near-duplicate-recipient-dropped/%s' % (edgekind, msg.neardup.rstrip('-3'))
+                elif other2xx and len(other2xx) == len(missing):
                     # two stages: next to a 250-recipient the transaction reaches DATA anyway; without one
                     # it is the DATA gate that must not open for recipients the envelope does not hold
                     some250 = any(c == '250' for c in msg.rcpt_codes.values())
@@ -1659,7 +1688,8 @@ def run_case(case, R):
             if any(k not in fired for k in faults) and is2xx(emitted) and not out['viol']:
                 R.inconclusive('fault index beyond the writes that happened')
             want = n_produced(case['chain'], layout)
-            if case['chain'] != 'none' and not case.get('boom') and nprod != want and not out['viol']:
+            if case['chain'] != 'none' and not case.get('boom') and not case.get('rcpts') and nprod != want \
+                    and not out['viol']:
                 R.inconclusive('policy chain produced %d envelopes, workload expected %d' % (nprod, want))
     else:
         spec = last.plan.spec
